@@ -17,7 +17,7 @@ import subprocess
 import tempfile
 from concurrent.futures import ThreadPoolExecutor
 
-from vlib import build_harness, build_cli, log, ToolError, tlc, tlc_must_pass, write_ndjson, sha, _translate_chunk, QT5_METATYPES, REPO
+from vlib import build_harness, build_cli, log, ToolError, tlc, tlc_must_pass, write_ndjson, sha, _translate_chunk, QT5_METATYPES, VERIF_T_METATYPES, REPO
 from vlib import catalog as C
 
 RULE = ("case = (document, mode, process, ordinal in that process); documents: four hand-written wide documents (constants at every map site, dynamic bindings / "
@@ -95,6 +95,14 @@ WIDE["errors"] = HEAD + '''QWidget {
     QVBoxLayout { QLabel { QLayout.row: 1; QLayout.column: 2; QLayout.rowSpan: 1; QLayout.columnSpan: 2; text: chk.nope; toolTip: chk.nope2; statusTip: nope3 } }
 }
 '''
+# anonymous objects whose generated-name prefixes compete (label / label1, widget / widget2), some of them needing support code
+WIDE["names"] = HEAD + '''QWidget {
+    QCheckBox { id: chk }
+    QLabel { } Label1 { } QLabel { enabled: chk.checked } Label1 { } QLabel { } Widget2 { } QWidget { } QWidget { visible: chk.checked } Widget2 { onWindowTitleChanged: {} } QWidget { }
+    QVBoxLayout { QLabel { } Label1 { text: chk.text } QLabel { } QSpacerItem { } QSpacerItem { } QHBoxLayout { QLabel { } } QHBoxLayout { } }
+    QAction { } QAction { } QAction { separator: true } QMenu { } QMenu { QAction { } }
+}
+'''
 WIDE["warnings"] = "import qmluic.QtWidgets 6.2\n" + 'QWidget { QPushButton { text: "x"; onClicked: function(): void {} } }\n'
 MODES = ["generate", "reject", "omit"]
 ANSI = re.compile(r"\x1b\[[0-9;]*m")
@@ -162,7 +170,7 @@ def run(chk):
             rr.shuffle(order)
             for d in order:
                 reqs.append({"id": [d, p, len(reqs)], "src": docs[d], "type_name": "Doc", "modes": MODES})
-        return _translate_chunk(reqs, [QT5_METATYPES], 20)
+        return _translate_chunk(reqs, [QT5_METATYPES, VERIF_T_METATYPES], 20)
     runs = {}     # (doc, mode) -> [run summaries]
     with ThreadPoolExecutor(min(nproc, 12)) as ex:
         for part in ex.map(one_process, range(nproc)):
